@@ -128,7 +128,9 @@ class Route:
 class Prop:
     RUNNER = 'run_case_approx'      # means and interpolation among the operations: compared within 1e-9 relative
     KEEP = ['get', 'reduce', 'cum', 'diff', 'transpose', 'swapaxes', 'newaxis', 'squeeze', 'flatten', 'reshape', 'reindex',
-            'sort_axis', 'interp', 'take_axis', 'compress_axis', 'dropna', 'fillna', 'setna']
+            'sort_axis', 'interp', 'take_axis', 'compress_axis', 'dropna', 'fillna', 'setna',
+            # reshaping that EXPANDS a singleton dimension (newaxis with values, repeat, broadcast onto more labels), rollaxis, ungrouping
+            'newaxis_values', 'repeat', 'broadcast', 'rollaxis', 'unflatten', 'put']
     DROP = ['binop', 'scalar_op', 'stack', 'concatenate', 'compare', 'neg']
 
     @staticmethod
@@ -147,7 +149,7 @@ class Prop:
             dims = a['dims']; i = rng.randrange(nd); d = dims[i]; labs = a['labels'][i]
             name = rng.choice(Prop.KEEP + Prop.DROP)
             stats['propagation_op'][name] += 1
-            ins = [a]
+            ins = [a]; more = []
             if name == 'get': op = ['get', 'getitem', {'dict': [[d, {'l': [labs[0]]}]]}, None, False, 'label']; op[1] = 'take'
             elif name == 'reduce': op = ['reduce', rng.choice(['sum', 'mean', 'median', 'max']), False, d]
             elif name == 'cum': op = ['cum', False, False, d, False]
@@ -158,6 +160,15 @@ class Prop:
             elif name == 'swapaxes': op = ['swapaxes', 0, nd - 1]
             elif name == 'newaxis': op = ['newaxis', 'q', None, None, 0]
             elif name == 'squeeze': op = ['squeeze', None]
+            elif name == 'newaxis_values': op = ['newaxis', 'q', [5, 6, 7][:rng.randint(2, 3)], 'i', rng.randint(0, nd)]
+            elif name == 'repeat': more = [['newaxis', 'q', None, None, rng.randint(0, nd)]]; op = ['repeat', [5, 6], 'i', 'q']
+            elif name == 'broadcast':
+                axs = [{'name': x, 'labels': l, 'kind': k} for x, l, k in zip(dims, a['labels'], a['axdtype'])]
+                axs.insert(rng.randint(0, nd), {'name': 'q', 'labels': [5, 6], 'kind': 'i'})
+                op = ['broadcast', axs]
+            elif name == 'rollaxis': op = ['rollaxis', d, rng.randint(0, nd)]
+            elif name == 'unflatten': more = [['flatten', dims, 'tuple', None]]; op = ['unflatten']
+            elif name == 'put': op = ['put', 'put', {'dict': [[d, {'l': [labs[0]]}]]}, None, {'scalar': 5.0, 'kind': 'f'}, False, False, 'label']
             elif name == 'flatten': op = ['flatten', dims, 'tuple', None]
             elif name == 'reshape': op = ['reshape', [','.join(dims)], False]
             elif name == 'reindex': op = ['reindex', labs[::-1] + [labs[0] + 100], guess_kind(labs + [labs[0] + 100]), d, None, False, None, 'array']
@@ -174,12 +185,12 @@ class Prop:
             elif name == 'concatenate': ins = [a, copy.deepcopy(a)]; op = ['concatenate', d, False, False]
             elif name == 'compare': op = ['compare', rng.choice(['==', '<', '>=']), 12.0]
             else: op = ['neg']
-            cases.append({'ins': ins, 'ops': [op], 'kind': 'keep' if name in Prop.KEEP else 'drop', 'axis': d})
+            cases.append({'ins': ins, 'ops': more + [op], 'kind': 'keep' if name in Prop.KEEP else 'drop', 'axis': d})
         return cases
 
     @staticmethod
     def oracle(c, res):
-        a = c['ins'][0]; op = c['ops'][0]
+        a = c['ins'][0]; op = c['ops'][-1]
         if res[0] == 'err': return '%s raised %s' % (op[0], res[1])
         g = res[1]
         if g['t'] != 'arr': return None
